@@ -20,7 +20,8 @@ VARIANTS = [
     "negotiation-phase origins, OSError fault classes",
     "second thread connecting while the fault is handled (adversarial schedules)",
     "final handler that disconnects and lingers",
-    "another thread keeping the write lock busy"
+    "another thread keeping the write lock busy",
+    "online-mode (encrypted) sessions: fault after the cipher was installed"
 ]
 RUNS = {'quick': 2500, 'thorough': 150000}     # sampled part
 WALL_CAP = {'quick': 240, 'thorough': 3300}
@@ -160,6 +161,10 @@ def scenario_for(seed, index, tier):
         # teardown has to wait its turn, not be skipped
         sc['holder'] = {'hold_us': rng.choice([20000, 200000, 1500000]),
                         'times': rng.choice([3, 8])}
+    if index >= len(en) and make_rng('enc', ID, seed, index).random() < 0.2:
+        # online-mode sessions: the fault strikes after the cipher has been
+        # installed (connection.socket is the cipher wrapper by then)
+        sc['encrypted'] = True
     build_server(sc)
     return sc
 
@@ -218,6 +223,10 @@ def build_server(sc):
             [['disconnect', '{"text":"late"}']]
     sc['server'] = {'conns': [first, copy.deepcopy(good),
                               copy.deepcopy(good)]}
+    if sc.get('encrypted'):
+        for c in sc['server']['conns']:
+            c['login'] = [['encrypt', {'bits': 1024, 'token_hex': 'c0ffee14',
+                                       'server_id': '-'}]] + c['login']
 
 
 def policy(rng, scenario):
